@@ -124,6 +124,17 @@ int main(int argc, char** argv)
                 ctx.each([&] { return chk.describe(D, av, {}); },
                          [&](mc::Report& rep) { chk.run_case(D, av, {}, rep, idx); });
             });
+        // (1b) the same toggle parsed a second time on one parser object: counts, reversal and defaults must not carry over
+        {
+            std::vector<std::vector<std::string>> firsts = { {}, { "-t" }, { "--tog", "--tog" }, { "--no-tog" }, { "--tog", "--no-tog" } };
+            for (auto& D : decls)
+                for (auto& f : firsts)
+                    for_all_vectors(alpha, n - 1, ctx, [&](const std::vector<std::string>& av) {
+                        long idx = ctx.next;
+                        ctx.each([&] { return chk.describe(D, av, {}); },
+                                 [&](mc::Report& rep) { chk.run_second(D, f, {}, av, {}, rep, idx); });
+                    });
+        }
         // (2) environment words through parse(), with and without the toggle on the command line
         for (auto& D : decls)
         {
